@@ -67,8 +67,10 @@ def jfilter(col: str, ftype: str, params: Dict[str, Any]) -> Dict[str, Any]:
     vals = params.get("values")
     if vals is None:
         jv: Any = None
-    elif isinstance(vals, (list, tuple)):
+    elif isinstance(vals, list):
         jv = {"list": [jval(x) for x in vals]}
+    elif isinstance(vals, tuple):
+        jv = {"tuple": [jval(x) for x in vals]}
     else:
         jv = {"scalar": jval(vals)}
     return {
@@ -225,8 +227,9 @@ def pick(rng: Any, col: List[Any], ct: str, wrong: bool = False) -> Any:
     return rng.choice(pool)
 
 
-def gen_filter(rng: Any, col: List[Any], ct: str, stream: str) -> Tuple[str, Dict[str, Any]]:
-    """stream: 'valid' (oracle domain), 'mismatch' (wrong type class), 'malformed' (unusable parameters / unknown type)"""
+def gen_filter(rng: Any, col: List[Any], ct: str, stream: str, hashable: bool = False) -> Tuple[str, Dict[str, Any]]:
+    """hashable: categorical values as a tuple (a list makes SingleFilter unhashable, so it cannot enter a set).
+    stream: 'valid' (oracle domain), 'mismatch' (wrong type class), 'malformed' (unusable parameters / unknown type)"""
     wrong = stream == "mismatch"
     ft = rng.choice(["range", "range", "min", "max", "max", "equal", "regex", "categorical_inclusion", "categorical_inclusion"])
     if stream == "malformed":
@@ -235,7 +238,7 @@ def gen_filter(rng: Any, col: List[Any], ct: str, stream: str) -> Tuple[str, Dic
             return rng.choice(["zscore", "RANGE", "custom", "Min"]), {"value": pick(rng, col, ct), "min": pick(rng, col, ct), "max": pick(rng, col, ct)}
         if kind == "missing":
             wrongkey = {"range": rng.choice([{"min": pick(rng, col, ct)}, {"max": pick(rng, col, ct)}, {"value": 1}]), "min": {"min": pick(rng, col, ct)}, "max": {"min": pick(rng, col, ct)},
-                        "equal": {"values": [1]}, "regex": {"values": ["a"]}, "categorical_inclusion": {"value": pick(rng, col, ct)}}  # fmt: skip
+                        "equal": {"values": (1,)}, "regex": {"values": ("a",)}, "categorical_inclusion": {"value": pick(rng, col, ct)}}  # fmt: skip
             return ft, wrongkey[ft]
         if kind == "maxmin":
             return "max", {"max": pick(rng, col, ct), "min": pick(rng, col, ct), "max_exclusive": rng.choice([True, False])}
@@ -277,7 +280,7 @@ def gen_filter(rng: Any, col: List[Any], ct: str, stream: str) -> Tuple[str, Dic
         vs.insert(rng.randrange(len(vs) + 1), None)
     if vs and rng.random() < 0.2:
         vs.append(vs[0])
-    return ft, {"values": tuple(vs) if rng.random() < 0.15 else vs}
+    return ft, {"values": tuple(vs) if (hashable or rng.random() < 0.15) else vs}
 
 
 # --------------------------------------------------------------------------------------
@@ -497,7 +500,7 @@ def suite_apply_fn(ctx: Ctx, scale: float = 1.0) -> None:
         for _ in range(nf):
             c = rng.choice(names)
             stream = "valid" if rng.random() < 0.9 else rng.choice(["mismatch", "malformed"])
-            ft, p = gen_filter(rng, cols[c][1], cts[c], stream)
+            ft, p = gen_filter(rng, cols[c][1], cts[c], stream, hashable=True)
             specs.append((c, ft, p, stream))
         none_filters = nf == 0 and rng.random() < 0.5
         for eng in ["py", "pa", "pdobj"]:
@@ -644,8 +647,14 @@ def suite_time_fn(ctx: Ctx, scale: float = 1.0) -> None:
         impls.append(impl)
         cases.append(case)
         # oracle 1: the produced text denotes the same instant as the input, in UTC
-        naive_utc = d.replace(tzinfo=None) - off  # independent arithmetic: wall clock minus offset
-        if "ok" in impl:
+        try:
+            naive_utc: Any = d.replace(tzinfo=None) - off  # independent arithmetic: wall clock minus offset
+        except OverflowError:
+            naive_utc = None  # the instant is outside years 1..9999: no UTC rendering exists
+        if naive_utc is None:
+            if "ok" in impl:
+                ctx.violation("time_fn", case, f"instant outside the representable range converted to {impl['ok']!r}", impl, "OverflowError")
+        elif "ok" in impl:
             back = dtm.datetime.fromisoformat(impl["ok"])
             if back.utcoffset() != dtm.timedelta(0) or back.replace(tzinfo=None) != naive_utc:
                 ctx.violation("time_fn", case, f"time bound {d!r} converted to {impl['ok']!r}, which is not the same instant in UTC ({naive_utc.isoformat()})", impl, naive_utc.isoformat())
@@ -658,7 +667,7 @@ def suite_time_fn(ctx: Ctx, scale: float = 1.0) -> None:
                     ctx.violation("time_fn", {**case, "other_zone": other}, f"same instant given in {other} converts to {s2!r} instead of {impl['ok']!r}", s2, impl["ok"])
             except OverflowError:
                 pass
-        elif impl["err"] != "overflow":
+        else:
             ctx.violation("time_fn", case, f"aware datetime rejected: {impl}", impl, naive_utc.isoformat())
     outs = ctx.lean.batch(reqs)
     for c, i, o in zip(cases, impls, outs):
@@ -706,8 +715,11 @@ def run_e2e(eng: str, g_cols: Dict[str, Tuple[str, List[Any]]], h_cols: Dict[str
     G = make_e2e_group("G11_", eng, g_cols)
     H = make_e2e_group("H11_", eng, h_cols)
     gf = GlobalFilter()
-    for c, ft, p in filters:
-        gf.add_filter(c, ft, dict(p))
+    try:
+        for c, ft, p in filters:
+            gf.add_filter(c, ft, dict(p))
+    except TypeError as e:
+        return {"err": "type", "at": "add_filter", "text": str(e)}
     if time_filter:
         gf.add_time_and_time_travel_filters(**time_filter)
     try:
@@ -716,6 +728,8 @@ def run_e2e(eng: str, g_cols: Dict[str, Tuple[str, List[Any]]], h_cols: Dict[str
         s = repr(e) + str(e)
         if "KeyError" in s and "FeatureName object" in s:
             return {"err": "key"}
+        if "ValueError" in s and "Data is empty or not in expected format" in s:
+            return {"err": "value", "at": "empty"}
         if "NotImplementedError" in s and "Arrow" not in s:
             return {"err": "notimpl"}
         if "ValueError" in s and "Filter parameter" in s or "No valid filter parameter" in s:
@@ -727,6 +741,14 @@ def run_e2e(eng: str, g_cols: Dict[str, Tuple[str, List[Any]]], h_cols: Dict[str
         key = "G" if "g_v" in colsr or "x" in colsr or "y" in colsr else ("H" if "h_w" in colsr else "?")
         out[key] = {c: v for c, v in colsr.items()}
     return {"ok": out}
+
+
+def gen_domain_filter(rng: Any, col: List[Any], ct: str, hashable: bool) -> Tuple[str, Dict[str, Any]]:
+    """a filter inside the oracle's domain (well-formed, parameter values of the column's type class)"""
+    while True:
+        ft, p = gen_filter(rng, col, ct, "valid", hashable=hashable)
+        if in_oracle_domain(ct, ft, p):
+            return ft, p
 
 
 def suite_e2e(ctx: Ctx, scale: float = 1.0) -> None:
@@ -746,7 +768,7 @@ def suite_e2e(ctx: Ctx, scale: float = 1.0) -> None:
         k = rng.choice([1, 1, 2, 3])
         fl = []
         for _ in range(k):
-            ft, p = gen_filter(rng, col, ct, "valid")
+            ft, p = gen_domain_filter(rng, col, ct, rng.random() < 0.85)
             fl.append(("x", ft, p))
         plan.append((ct, col, fl, rng.choice(["both", "both", "g_only_y", "none_exposes", "h_too"])))
     for ct, col, fl, shape in plan:
@@ -758,7 +780,7 @@ def suite_e2e(ctx: Ctx, scale: float = 1.0) -> None:
         h_cols = {"h_w": ("int", [7 * k for k in range(hn)])}
         filters = list(fl)
         if shape == "g_only_y":
-            ft, p = gen_filter(rng, ycol, yct, "valid")
+            ft, p = gen_domain_filter(rng, ycol, yct, True)
             filters.append(("y", ft, p))
         if shape == "none_exposes":
             # the filter column exists in no group: every group is unaffected
@@ -796,6 +818,10 @@ def suite_e2e(ctx: Ctx, scale: float = 1.0) -> None:
                             single = _single(engines(), eng, cols_, c, ft, p)
                             fcs.add(finding_class(eng, cols_[c][0], cols_[c][1], ft, p, single, oracle_rows(cols_[c][1], ft, p)))
                 fcs.discard(None)
+                if impl.get("at") == "add_filter" and "unhashable" in impl.get("text", "") and any(isinstance(p.get("values"), list) for _, _, p in filters):
+                    fcs = {"globalfilter-list-values-unhashable"}
+                elif eng == "py" and impl.get("at") == "empty" and ([] in (eg, eh)):
+                    fcs = {"pythondict-empty-result-raises"}
                 ctx.violation("e2e", case, f"run_all on {eng} with filters {filters}: returned {got}, expected {exp}", got, exp, finding_class=(sorted(fcs)[0] if fcs else None))
             # model: runGroup per group (any order: proved order independent in the oracle's domain)
             for key, cols_, nr, idcol, mult in (("G", g_cols, nrows, "g_v", 10), ("H", h_cols, hn, "h_w", 7)):
@@ -874,6 +900,8 @@ def suite_e2e_time(ctx: Ctx, scale: float = 1.0) -> None:
                 got = {"G": impl["ok"].get("G", {}).get("g_v"), "H": impl["ok"].get("H", {}).get("h_w")}
             if got != exp:
                 fc = "pandas-default-str-column-index" if eng == "pd" and impl.get("err") == "key" else None
+                if eng == "py" and impl.get("at") == "empty" and not keep:
+                    fc = "pythondict-empty-result-raises"
                 ctx.violation("e2e_time", case, f"time filter [{case['from']} .. {case['to']}{')' if excl else ']'} on {eng}: returned {got}, expected {exp}", got, exp, finding_class=fc)
 
 
